@@ -12,4 +12,11 @@ PROPS = {
         rule="each run: 2-6 tasks issue 1-5 ListenStream/ListenPacket/Close calls each on 1-3 addresses of one real ListenerManager (some handles pre-acquired) under a drawn scheduling policy (sticky/uniform/PCT); non-trivial = some task closes a handle on an address another task listens on; distinct = distinct (event-log hash, schedule fingerprint) among non-trivial runs",
         real=["service.listenerManager, multiStreamListener, multiPacketListener, virtualStreamListener, virtualPacketConn (instrumented, not stubbed)"],
         stub=COMMON_STUB, assumptions=COMMON_ASSUME),
+    "C12": dict(
+        scenarios=[dict(name="c12s", quick=15000, thorough=1500000, quick_budget_s=120, thorough_budget_s=1200),
+                   dict(name="c12p", quick=15000, thorough=1500000, quick_budget_s=120, thorough_budget_s=1200)],
+        level_text="Seeded exploration of interleavings of acquire/accept/read/close calls and incoming connections/datagrams over 1-4 handles of one shared address on the real listener manager; exactly-once, closed-handle semantics, bounded liveness (at quiescence nothing that arrived may be undelivered while a handle keeps accepting) and full release after the last close are checked against the simulator's ground-truth ledger. Sampling, not proof.",
+        rule="each run: 1-4 handles on one address (stream scenario c12s / packet scenario c12p), acceptor/reader task per handle, closer tasks with drawn positions, 0-7 connections or datagrams from harness clients, one handle optionally kept open to the end; select choices and goroutine order drawn from the schedule tape; non-trivial = a handle kept accepting to the end of the concurrent phase (loss oracle armed) or a rare probe fired; distinct = distinct (event-log hash, schedule fingerprint)",
+        real=["service.listenerManager, multiStreamListener (shared accept loop), multiPacketListener (shared read loop), virtualStreamListener, virtualPacketConn"],
+        stub=COMMON_STUB, assumptions=COMMON_ASSUME),
 }
